@@ -1,8 +1,12 @@
 package vrt_test
 
 import (
+	"bufio"
 	"context"
+	crand "crypto/rand"
 	"fmt"
+	"io"
+	"regexp"
 	"sort"
 	"strings"
 	"testing"
@@ -772,6 +776,50 @@ func TestEnvProjectionOracle(t *testing.T) {
 		r = vrt.Explore(cancelerScenario("canceler-by-method-other", true, false, other...), o)
 		if r.HarnessError != "" || len(r.Findings) != 0 {
 			t.Fatalf("%+v: false alarm for different methods: %s %+v", o, r.HarnessError, r.Findings)
+		}
+	}
+}
+
+// ---- opaque shared objects -------------------------------------------------------------------
+
+// A use of a shared value of an uninstrumented type is a WRITE of the object unless the type is
+// on the allow-list of types documented as safe for concurrent use.
+func TestOpaqueObjectUses(t *testing.T) {
+	type env struct {
+		mu  sync.Mutex
+		src io.Reader
+		re  *regexp.Regexp
+	}
+	mk := func(name string, src func() io.Reader, locked bool) *vrt.Scenario {
+		use := func(e any) any {
+			v := e.(*env)
+			if locked {
+				v.mu.Lock()
+				defer v.mu.Unlock()
+			}
+			b := make([]byte, 2)
+			_, _ = io.ReadFull(vrt.OV(v.src, "t.go:1|use|src"), b)
+			return vrt.OV(v.re, "t.go:2|use|re").MatchString("abc")
+		}
+		return &vrt.Scenario{Name: name, Shared: true, Threads: []func(any) any{use, use},
+			Setup: func() any { return &env{src: src(), re: regexp.MustCompile("b")} }}
+	}
+	r := vrt.Explore(mk("opaque-bufio", func() io.Reader { return bufio.NewReader(strings.NewReader("0123456789")) }, false), vrt.Options{Bound: 0})
+	f := has(r, "race")
+	if f == nil || !strings.Contains(f.Signature, "var=src (*bufio.Reader)") || len(r.Findings) != 1 {
+		t.Fatalf("shared *bufio.Reader not reported as a race naming variable and type: %s %+v", r.HarnessError, r.Findings)
+	}
+	r = vrt.Explore(mk("opaque-bufio-locked", func() io.Reader { return bufio.NewReader(strings.NewReader("0123456789")) }, true), vrt.Options{Bound: 2})
+	if r.HarnessError != "" || len(r.Findings) != 0 {
+		t.Fatalf("uses ordered by a mutex reported: %s %+v", r.HarnessError, r.Findings)
+	}
+	r = vrt.Explore(mk("opaque-cryptorand", func() io.Reader { return crand.Reader }, false), vrt.Options{Bound: 2})
+	if r.HarnessError != "" || len(r.Findings) != 0 {
+		t.Fatalf("allow-listed types (crypto/rand reader, *regexp.Regexp) reported: %s %+v", r.HarnessError, r.Findings)
+	}
+	for k, why := range vrt.ConcurrencySafe {
+		if len(why) < 20 || !strings.Contains(k, ".") {
+			t.Fatalf("allow-list entry %q needs a reason", k)
 		}
 	}
 }
